@@ -19,7 +19,7 @@ param_spaces_t make_spaces(vt::Rng& rng, int64_t d, std::vector<int64_t>& dims, 
     param_spaces_t spaces;
     for (int64_t i = 0; i < d; ++i)
     {
-        const auto n   = rng.range(2, maxsize);
+        const auto n   = (maxsize >= 17 && rng.coin(1, 3)) ? rng.range(17, maxsize) : rng.range(2, maxsize); // large grids: small budgets bite
         const auto log = rng.coin();
         tensor1d_t values(n);
         for (tensor_size_t k = 0; k < n; ++k)
@@ -59,7 +59,7 @@ void tuner_case(vt::Rng& rng, int64_t icase)
 {
     const auto           d = rng.range(1, 3);
     std::vector<int64_t> dims;
-    const auto           spaces    = make_spaces(rng, d, dims, d == 1 ? 31 : (d == 2 ? 12 : 6));
+    const auto           spaces    = make_spaces(rng, d, dims, 31);
     const auto           id        = rng.coin() ? "local-search" : "surrogate";
     auto                 tuner     = tuner_t::all().get(id);
     const auto           max_evals = rng.pick(std::vector<int64_t>{10, 10, 12, 20, 35, 60, 100, 1000});
